@@ -45,7 +45,10 @@ def rpo(body):
 
 
 class Exporter:
-    def __init__(self, prog, an, body):
+    def __init__(self, prog, an, body, argpaths=None, depth=0, argowners=None):
+        self.argpaths = argpaths or {}
+        self.argowners = argowners or {}
+        self.depth = depth
         self.prog = prog
         self.an = an
         self.b = body
@@ -100,6 +103,8 @@ class Exporter:
         seen = 0
         while seen < 12:
             seen += 1
+            if x[0] == "arg" and x[1] in self.argowners:
+                return self.argowners[x[1]]
             if x[0] == "field":
                 return (x[3], x[2])
             if x[0] == "phi":
@@ -126,10 +131,18 @@ class Exporter:
         e = peel(e)
         k = e[0]
         if k == "arg":
+            ap = self.argpaths.get(e[1])
+            if ap is not None and not isinstance(ap, list):
+                return ap
             return "self" if e[1] == 1 else "arg%d" % e[1]
         if k == "field":
             return "%s.%s" % (self.path_of(e[1]), e[2])
         if k == "tfield":
+            base = peel(e[1])
+            if base[0] == "arg" and isinstance(self.argpaths.get(base[1]), list):
+                env = self.argpaths[base[1]]
+                if e[2] < len(env):
+                    return env[e[2]]
             return "%s.%d" % (self.path_of(e[1]), e[2])
         if k == "downcast":
             return "%s as %s" % (self.path_of(e[1]), e[2])
@@ -154,6 +167,8 @@ class Exporter:
                 return self.path_of(e[3][0]) + suffix
             if n == NEXT:
                 return self.path_of(e[3][0], iterating=True)
+            if n in ("std::iter::Iterator::flat_map", "std::iter::Iterator::map", "std::iter::Iterator::enumerate", "std::iter::Iterator::cloned", "std::iter::Iterator::copied") and e[3]:
+                return self.path_of(e[3][0], iterating=True) + ("[*]" if n.endswith("flat_map") else "")
             return "call:%s(%s)" % (e[2].npath, ",".join(self.path_of(a) for a in e[3][:1]))
         if k == "const":
             return "const:%s" % e[1]
@@ -244,6 +259,10 @@ class Exporter:
                 return ("atom", self.path_of(e[3][0]), 16, "octets", self.owner_of(e[3][0]))
             if n in ("std::slice::<impl [T]>::to_vec",):
                 return self.content(e[3][0], depth + 1)
+            if e[2].nsyn == "std::iter::Iterator::collect":
+                items = self.collect_items(e)
+                if items is not None:
+                    return ("inline", items)
             if e[2].local:
                 return ("enc", self.path_of(e[3][0]) if e[3] else "?", e[2].path)
             return ("unknown", "call %s" % n)
@@ -254,6 +273,16 @@ class Exporter:
             return ("unknown", canon(e)[:120])
         if k in ("field", "tfield", "downcast", "some"):
             return ("bytes", self.path_of(e), self.owner_of(e))
+        if k == "phi":
+            subs = [self.content(x, depth + 1) for x in e[1]]
+            if subs and all(c[0] == "bytes" for c in subs):
+                adts = set(c[2][0] for c in subs)
+                if len(adts) == 1:
+                    return ("bytes", "{%s}" % "|".join(sorted(set(c[1] for c in subs))), (list(adts)[0], "|".join(sorted(set(c[2][1] for c in subs)))))
+            uniq = {repr(c): c for c in subs}
+            if len(uniq) == 1:
+                return subs[0]
+            return ("unknown", "value depends on the path taken: %s" % [c[:2] for c in subs][:4])
         if k == "array":
             return ("seq", [self.content(x, depth + 1) for x in e[1]])
         if k == "const":
@@ -261,13 +290,68 @@ class Exporter:
         return ("unknown", canon(e)[:120])
 
     def vec_local_of(self, e):
-        """The Vec local a `&mut v` argument refers to."""
+        """The byte buffer a `&mut v` argument refers to: a Vec local of this body (int) or a `&mut Vec<u8>`
+        parameter (("arg", k))."""
         x = e
         while x[0] in ("ref", "deref"):
             x = x[1]
         if x[0] == "mutlocal":
+            inner = x[2]
+            while inner[0] in ("ref", "deref"):
+                inner = inner[1]
+            if inner[0] == "arg" and "Vec<u8>" in self.b.local_ty(inner[1]):
+                return ("arg", inner[1])
             return x[1]
+        if x[0] == "arg" and "&mut std::vec::Vec<u8>" in self.b.local_ty(x[1]):
+            return ("arg", x[1])
         return None
+
+    def _sub_exporter(self, callee_path, argexprs):
+        """Exporter for a crate helper / closure body with its parameters mapped to this body's paths."""
+        cb = self.prog.body(callee_path)
+        if cb is None or self.depth > 4:
+            return None
+        ap = {}
+        ao = {}
+        for i, a in enumerate(argexprs):
+            if isinstance(a, list):
+                ap[i + 1] = a
+            elif a is not None:
+                ap[i + 1] = self.path_of(a)
+                ow = self.loop_source_owner(a)
+                if ow[0]:
+                    ao[i + 1] = ow
+        return Exporter(self.prog, self.an, cb, ap, self.depth + 1, ao)
+
+    def collect_items(self, call):
+        """collect(flat_map / map(iter(X), closure)) -> per-element emissions of the closure's returned buffer."""
+        chain = peel(call[3][0], identity=()) if call[3] else ("opaque",)
+        if not (chain[0] == "call" and chain[2] is not None and chain[2].nsyn in ("std::iter::Iterator::flat_map", "std::iter::Iterator::map") and len(chain[3]) == 2):
+            return None
+        srcpath = self.path_of(chain[3][0], iterating=True)
+        clo = peel(chain[3][1], identity=(), casts=False)
+        if clo[0] != "closure":
+            return None
+        env = [self.path_of(u) for u in clo[2]]
+        sub = self._sub_exporter(clo[1], [env, None])
+        if sub is None:
+            return None
+        sub.argpaths[2] = srcpath
+        ow = self.loop_source_owner(chain[3][0])
+        rl = sub.result_local()
+        if rl is None:
+            return None
+        items = self._inline_items(sub, rl)
+        self._loop_owner = getattr(self, "_loop_owner", {})
+        self._loop_owner[srcpath] = ow
+        return [((srcpath,) + tuple(lp), cd, cc) for (lp, cd, cc) in items]
+
+    def _inline_items(self, sub, buf):
+        evs = sub.events(buf)
+        items = sub.flat(evs)
+        self._loop_owner = getattr(self, "_loop_owner", {})
+        self._loop_owner.update(getattr(sub, "_loop_owner", {}))
+        return items
 
     def events(self, vlocal, depth=0, seen=None):
         """Emission events for Vec local `vlocal`, in RPO order."""
@@ -279,13 +363,13 @@ class Exporter:
         b = self.b
         evs = []
         # initial content
-        for d in self.sl.defs.get(vlocal, []):
+        for d in (self.sl.defs.get(vlocal, []) if isinstance(vlocal, int) else []):
             if d[0] == "call":
                 t = d[2]
                 c = Callee(t["func"]["fn"]) if t["func"].get("k") == "const" and "fn" in t["func"] else None
                 if c is None:
                     continue
-                if c.npath in ("std::vec::Vec::new",) or c.nsyn in ("std::default::Default::default",):
+                if c.npath in ("std::vec::Vec::new", "std::vec::Vec::with_capacity") or c.nsyn in ("std::default::Default::default",):
                     continue
                 if c.npath in ("std::slice::<impl [T]>::to_vec",):
                     cont = self.content(self.an.op(b, t["args"][0]))
@@ -298,9 +382,30 @@ class Exporter:
                     continue
                 evs.append({"pos": self.order.get(d[1], 0), "block": d[1], "loop": self.loopctx(d[1]), "cond": self.condctx(d[1]),
                             "content": ("unknown", "buffer initialised by %s" % c.npath)})
+        # initial content produced by an iterator chain: collect(flat_map / map(iter(X), closure))
+        for d in self.sl.defs.get(vlocal, []) if isinstance(vlocal, int) else []:
+            if d[0] == "call":
+                t = d[2]
+                c = Callee(t["func"]["fn"]) if t["func"].get("k") == "const" and "fn" in t["func"] else None
+                if c is not None and c.nsyn == "std::iter::Iterator::collect":
+                    items = self.collect_items(self.an.simp(self.sl.call_expr(d[1], t)))
+                    if items is not None:
+                        evs = [e for e in evs if not (e["content"][0] == "unknown" and "collect" in e["content"][1])]
+                        evs.append({"pos": self.order.get(d[1], 0), "block": d[1], "loop": self.loopctx(d[1]), "cond": self.condctx(d[1]), "content": ("inline", items)})
         for blk, t, c in b.calls():
             if c is None or not t["args"]:
                 continue
+            # a crate helper that receives the buffer: its emissions are inlined at the call site
+            if c.local and c.path in self.prog.bodies and c.path != b.path:
+                bufarg = [i for i, a in enumerate(t["args"]) if self.vec_local_of(self.an.op(b, a)) == vlocal]
+                if bufarg:
+                    sub = self._sub_exporter(c.path, [self.an.op(b, a) for a in t["args"]])
+                    if sub is not None:
+                        items = self._inline_items(sub, ("arg", bufarg[0] + 1))
+                        evs.append({"pos": self.order.get(blk, 0), "block": blk, "loop": self.loopctx(blk), "cond": self.condctx(blk), "content": ("inline", items)})
+                    else:
+                        evs.append({"pos": self.order.get(blk, 0), "block": blk, "loop": self.loopctx(blk), "cond": self.condctx(blk), "content": ("unknown", "buffer handed to %s" % c.path)})
+                    continue
             recv = self.an.op(b, t["args"][0])
             if self.vec_local_of(recv) != vlocal:
                 continue
@@ -362,6 +467,9 @@ class Exporter:
                     out.append((lp, cd, ("unknown", "nested buffer is written after it was emitted")))
                 for (l2, c2, cc) in self.flat(sub):
                     out.append((l2 if len(l2) >= len(lp) else lp + l2, tuple(dict.fromkeys(cd + c2)), cc))
+            elif c[0] == "inline":
+                for (l2, c2, cc) in c[1]:
+                    out.append((lp + tuple(l2), tuple(dict.fromkeys(cd + tuple(c2))), cc))
             elif c[0] == "seq":
                 for x in c[1]:
                     out.append((lp, cd, x))
